@@ -904,6 +904,10 @@ def _sc_candidates(sc):
         c = copy.deepcopy(sc)
         c['faults']['copy_machines'] = False
         yield c
+    if sc.get('pipeline_order') not in (None, 'plan'):
+        c = copy.deepcopy(sc)
+        c['pipeline_order'] = 'plan'
+        yield c
     if sc.get('cluster_header'):
         c = copy.deepcopy(sc)
         c['cluster_header'] = None
